@@ -96,9 +96,33 @@ def sites_of(fn):
                 out.append(Site(fn, bi, "copylen", {"recv": t["args"][0]}, t.get("ln"), t.get("mac")))
             elif cn in ("core::option::Option::unwrap", "core::option::Option::expect", "core::result::Result::unwrap", "core::result::Result::expect"):
                 out.append(Site(fn, bi, "unwrap", {"recv": t["args"][0], "m": cn.split("::")[-1]}, t.get("ln"), t.get("mac")))
+            elif cn in EXT_PANICKY:
+                out.append(Site(fn, bi, "ext", {"callee": cn, "args": t["args"]}, t.get("ln"), t.get("mac")))
             elif cn.startswith("core::panicking::"):
                 out.append(Site(fn, bi, "explicit", {"callee": cn}, t.get("ln"), t.get("mac")))
     return out
+
+
+# library calls that panic on a violated precondition (beyond indexing / unwrap, handled above)
+EXT_PANICKY = {
+    "heapless::vec::Vec::extend": "panics when the fixed capacity is exceeded",
+    "arraydeque::ArrayDeque::drain": "panics when the range is out of bounds",
+    "core::slice::swap": "panics when an index is out of bounds",
+    "core::slice::clone_from_slice": "panics when the lengths differ",
+    "core::cell::RefCell::borrow_mut": "panics when already borrowed",
+    "core::cell::RefCell::borrow": "panics when mutably borrowed",
+    "bytemuck::cast_slice": "panics on size/alignment mismatch",
+    "core::slice::chunks": "panics when the chunk size is 0",
+    "core::slice::chunks_exact": "panics when the chunk size is 0",
+    "core::slice::windows": "panics when the window size is 0",
+    "core::iter::traits::iterator::Iterator::step_by": "panics when the step is 0",
+    "alloc::vec::Vec::drain": "panics when the range is out of bounds",
+    "alloc::vec::Vec::split_off": "panics when at > len",
+    "alloc::string::String::remove": "panics when the index is out of bounds",
+    "alloc::string::String::insert": "panics when the index is out of bounds",
+    "core::char::methods::from_digit": "panics when radix > 36",
+    "core::char::methods::to_digit": "panics when radix > 36",
+}
 
 
 def _range_parts(fn, op):
@@ -566,6 +590,28 @@ class Engine:
                             s.status, s.how = "ok", "get(%s) of a container with len %s" % (iv, lv)
                             return
             s.need = ("some", d["recv"], None)
+        elif k == "ext":
+            cn = d["callee"]
+            if cn in ("core::slice::chunks", "core::slice::chunks_exact", "core::slice::windows",
+                      "core::iter::traits::iterator::Iterator::step_by") and len(d["args"]) > 1:
+                v = g.value(st, d["args"][1])
+                if not v.is_empty() and v.lo() >= 1:
+                    s.status, s.how = "ok", "size argument %s >= 1" % v
+                    return
+            if cn.endswith("::drain") and len(d["args"]) > 1:
+                rp = _range_parts(fn, d["args"][1])
+                if rp is not None and rp[0] == "full":
+                    s.status, s.how = "ok", "drain(..) over the full range"
+                    return
+                if rp is not None and rp[0] == "from":
+                    sv = g.value(st, rp[1])
+                    lk = g.len_key(d["args"][0])
+                    lv = st.get(lk) if lk else IS.top()
+                    if not sv.is_empty() and (sv.hi() == 0 or (not lv.is_empty() and sv.hi() <= lv.lo())
+                                              or (lk and is_place(rp[1]) and g.lt_key(st, rp[1], lk, strict=False))):
+                        s.status, s.how = "ok", "drain(%s..): start <= len" % sv
+                        return
+            s.need = (k, None, None)
         elif k in ("explicit", "mapindex", "index-other", "copylen"):
             s.need = (k, None, None)
         s.status = "no"
@@ -831,6 +877,8 @@ def site_sig(eng, s):
         return (m[-1] if m else d.get("callee", "").split("::")[-1])
     if s.kind in ("mapindex", "index-other", "copylen"):
         return op_sig(eng, fn, None, d.get("recv"))
+    if s.kind == "ext":
+        return "%s(%s)" % (d["callee"].split("::")[-1], op_sig(eng, fn, None, d["args"][0]) if d["args"] else "")
     return ""
 
 
@@ -986,7 +1034,8 @@ def _finish(res, sites, table, what, eng=None):
 
 
 def run_rt(prog):
-    from rules.panic_tables import RT
+    from rules.panic_tables import RT, SEXPR
+    RT = RT + SEXPR  # feature "cmd": cmd-output-keys parses the command's stdout with the s-expression reader at run time
     res, eng, sites, counts = run_engine(prog, RT_ROOTS, RT_STOP, "R-PANIC/rt",
                                          "no reachable partial operation on the event/tick path can fail", RT, 120)
     return _finish(res, sites, RT, "run-time", eng)
